@@ -388,6 +388,66 @@ def _common(ctx):
     ]
 
 
+def _stage_rpc(ctx):
+    """Extension beyond the listed property: where the rpc_* options end up.  spec/Rpc.tla is the decision table of
+    bits.rpc.rpc_method (credential selection, parameter coercion); every row TLC enumerates is replayed into the real function
+    with urlopen replaced by a recorder."""
+    import base64
+    import tempfile
+    import urllib.request
+
+    import bits.rpc
+
+    r = vlib.tlc_ok("Rpc", "Rpc.cfg", workers=2, timeout=600)
+    ctx.stage_a("Rpc.cfg", r, constants="url x datadir x cookie x user x password x 5 parameter lists")
+    rows = [p for p in r.prints if p and p[0] == "R"]
+    if len(rows) < 100:
+        raise vlib.MachineryFailure(f"Rpc.tla emitted only {len(rows)} rows")
+    text = {"int": "42", "json": '["pk(02ab)", {"a": 1}]', "text": "start"}
+    want_val = {"number": 42, "parsed": ["pk(02ab)", {"a": 1}], "string": "start"}
+    sent = []
+
+    class Resp:
+        def read(self):
+            return b'{"result": 7, "error": null}'
+
+    def fake_urlopen(req, *a, **kw):
+        sent.append(req)
+        return Resp()
+
+    orig = bits.rpc.urlopen
+    bits.rpc.urlopen = fake_urlopen
+    n = 0
+    try:
+        for _, url, datadir, cookie, user, pw, params, auth, coerced in rows:
+            with tempfile.TemporaryDirectory() as d:
+                if cookie:
+                    open(os.path.join(d, ".cookie"), "w").write("__cookie__:s3cr3t")
+                del sent[:]
+                got = vlib.run_call(bits.rpc.rpc_method, "m", *[text[x] for x in params], rpc_url="http://scripted" if url else "",
+                                    rpc_user="alice" if user else "", rpc_password="pw" if pw else "", rpc_datadir=d if datadir else "")
+            n += 1
+            case = {"stage": "B", "op": "rpc", "url": url, "datadir": datadir, "cookie": cookie, "user": user, "pw": pw, "params": params,
+                    "expected": auth}
+            if auth.startswith("error"):
+                if "ok" in got or sent:
+                    ctx.extension_mismatch("rpc-call-made-without-valid-credentials", dict(case, got=str(got)[:100]))
+                continue
+            if "err" in got or len(sent) != 1:
+                ctx.extension_mismatch("rpc-call-refused", dict(case, got=str(got)[:100]))
+                continue
+            hdr = sent[0].get_header("Authorization") or ""
+            cred = base64.b64decode(hdr.split()[-1]).decode() if hdr.startswith("Basic ") else "?"
+            if cred != ("__cookie__:s3cr3t" if auth == "cookie" else "alice:pw"):
+                ctx.extension_mismatch("rpc-wrong-credentials", dict(case, got=cred))
+            body = json.loads(sent[0].data.decode())
+            if body.get("method") != "m" or body.get("params") != [want_val[x] for x in coerced]:
+                ctx.extension_mismatch("rpc-parameters-wrong", dict(case, got=str(body.get("params"))[:120]))
+    finally:
+        bits.rpc.urlopen = orig
+    ctx.stage_b("Rpc.tla rows -> rpc_method", n)
+
+
 def run(ctx):
     ctx.rule = ("stage A: every configuration / every short string of the bounded models; stage B: every configuration TLC "
                 "enumerates, replayed through main() (non-trivial = at least two layers hold different values; distinct by "
@@ -411,6 +471,7 @@ def run(ctx):
         raise vlib.MachineryFailure(f"Gen_Cli wrote {len(rows)} configurations but MC_Cli has {n_init} initial states")
     _binding_selftest_b(ctx, passing)
     _binding_selftest_c(ctx, done)
+    _stage_rpc(ctx)
     ev = next(e for e in done if e["op"] == "rt" and e["f"] == "hex" and e["g"] == "bin" and len(e["b"]) == 3)
     ctx.sample({"stage": "C", "event": {k: ev[k] for k in ("op", "f", "g", "b", "t1", "t2", "t3", "b2")}})
 
